@@ -140,6 +140,16 @@ def handwritten() -> List[dict]:
                   [("S", ["N0"], [("X", []), ("t", [0])], []),
                    ("X", ["N0"], [("X", []), ("X", []), ("t", [0])], []), ("X", ["N0"], [("b", [0])], [])],
                   {"t": [-1.0, -0.5], "b": [-2.0, -1.0]}, {"family": "recursive-nonlinear"}, weights_log=True))
+    # an acyclic nonterminal T and a recursive R side by side (either may be scheduled first); the best R
+    # derivation needs the recursive rule:  S -> f(t) T(t) R(t) | f(t) R(t) T(t);  R(t) -> m(t,u) R(u) | stop(t)
+    for order in (0, 1):
+        tr = [("T", [0]), ("R", [0])] if order == 0 else [("R", [0]), ("T", [0])]
+        out.append(mk({"N0": 2}, {"S": ([], N), "T": (["N0"], N), "R": (["N0"], N), "f": (["N0"], T), "b": (["N0"], T),
+                                 "m": (["N0", "N0"], T), "stop": (["N0"], T)}, "S",
+                      [("S", ["N0"], [("f", [0])] + tr, []), ("T", ["N0"], [("b", [0])], [0]),
+                       ("R", ["N0", "N0"], [("m", [0, 1]), ("R", [1])], [0]), ("R", ["N0"], [("stop", [0])], [0])],
+                      {"f": [0.0, -3.0], "b": [-0.5, -0.5], "m": [[-2.0, -0.1], [-2.0, -2.0]], "stop": [-4.0, -0.2]},
+                      {"family": "acyclic-next-to-recursive"}, weights_log=True))
     return out
 
 
